@@ -213,6 +213,17 @@ theorem lookup_backs_off (n : Nat) :
     sleepsOf (lookupLoop Backoff.nextBackoff (sched 0) n) = schedFrom 0 n :=
   ⟨by decide, by decide, by decide, by decide, lookupLoop_sleeps n 0⟩
 
+/-- Table administration (`checkProcedureWithBackoff` behind CreateTable / DeleteTable / EnableTable /
+DisableTable, regenerated facts `checkProcedure_*`): the loop has the shape of the lookup loop — ask
+for the procedure's state; while it is still running, wait and ask again — starts at the first
+entry of the schedule and threads the grown back-off through, so a procedure that runs for a long
+time is polled at the decaying rate of the schedule, under the caller's context. -/
+theorem procedure_polls_back_off (n : Nat) :
+    checkProcedure_initBackoff = some (sched 0) ∧ checkProcedure_sleepThreadsBackoff = 1 ∧
+    checkProcedure_sleepCtx = ["ctx"] ∧
+    sleepsOf (lookupLoop Backoff.nextBackoff (sched 0) n) = schedFrom 0 n :=
+  ⟨by decide, by decide, by decide, lookupLoop_sleeps n 0⟩
+
 theorem establishLoop_sleeps_pos (n j : Nat) :
     sleepsOf (establishLoop Backoff.nextBackoff (sched j) n) = schedFrom j (n + 1) := by
   induction n generalizing j with
